@@ -12,11 +12,37 @@ IMPORTS = 'From Tranp Require Import Model.Session.'
 
 GENERIC_POOL = {
     'proj.gen': ("from collections.abc import Callable\nfrom typing import Generic, TypeVar\n\nT = TypeVar('T')\n\n\nclass Box(Generic[T]):\n\tv: T\n\n\tdef __init__(self, v: T) -> None:\n\t\tself.v = v\n\n"
-                 "\tdef each(self, f: Callable[[T], None]) -> None:\n\t\tf(self.v)\n\n\tdef pick(self, f: Callable[[T, T], T], other: T) -> T:\n\t\treturn f(self.v, other)\n"),
+                 "\tdef each(self, f: Callable[[T], None]) -> None:\n\t\tf(self.v)\n\n\tdef pick(self, f: Callable[[T, T], T], other: T) -> T:\n\t\treturn f(self.v, other)\n"
+                 "\n\nclass IntBox(Box[int]):\n\tdef twice(self) -> int:\n\t\treturn self.v * 2\n"),
     'proj.ga': "from proj.gen import Box\n\n\ndef fa(b: Box[int]) -> int:\n\tb.each(lambda v: print(v))\n\treturn b.pick(lambda p, q: p + q, 2)\n",
     'proj.gb': "from proj.gen import Box\n\n\ndef fb(b: Box[str]) -> str:\n\tb.each(lambda s: print(s))\n\treturn b.pick(lambda p, q: p + q, 'x')\n",
+    # an inherited member of the generic base, typed by its type variable, read through the subclass that binds it
+    'proj.gd': "from proj.gen import IntBox\n\n\ndef fd(n: int) -> int:\n\tb = IntBox(n)\n\treturn b.v + b.twice() + b.v\n",
     'proj.gc': "from proj.gen import Box\n\n\ndef fc(n: float) -> float:\n\tb = Box(n)\n\tb.each(lambda w: print(w))\n\treturn b.pick(lambda p, q: p * q, 0.5)\n",
 }
+
+
+# third fixed pool: a user template that registers a dependency (emit_depends), a module whose transpile is refused, one with a
+# closure (it triggers the template) and a plain one
+TEMPLATE_POOL = {
+    'proj.bad': 'def bad() -> int:\n\ta, b = [1, 2]\n\treturn a\n',
+    'proj.fn': 'def fn(n: int) -> int:\n\tdef inner(q: int) -> int:\n\t\treturn q + n\n\treturn inner(1)\n',
+    'proj.plain': 'def plain(n: int) -> int:\n\treturn n + 1\n',
+}
+
+
+def pool_templates():
+    import lib
+    return {'function/closure.j2': "{{- emit_depends('<functional>') -}}\n" + open(os.path.join(lib.REPO, 'data/cpp/template/function/closure.j2')).read()}
+
+
+def outcome(fn):
+    """the emitted text, or 'ERROR <class>' for an application error"""
+    from rogw.tranp.errors import Errors
+    try:
+        return fn()
+    except Errors.Error as e:
+        return 'ERROR ' + type(e).__name__
 
 
 def fresh_process(sources, order, seed, scratch):
@@ -65,21 +91,22 @@ def run(ctx: Ctx) -> None:
                                 '\t\treturn q + delta - gamma - beta - alpha\n\treturn inner(1)\n')
             # ... and an unrelated module whose path has that module's path as a prefix (mcl / mclx): the prefix-pair histories below
             srcs['proj.mclx'] = 'def other(n: int) -> int:\n\treturn n * 2\n'
+        tpl = None
+        if hidx == 2:
+            srcs, tpl = dict(TEMPLATE_POOL), pool_templates()
         if hidx == 1:
             # a second fixed pool: a user-defined generic class whose method takes a callable over T, instantiated with lambdas at
             # three different type arguments by three modules (signatures of generic methods are re-bound per call site)
             srcs = dict(GENERIC_POOL)
         names = list(srcs)
         imps = {i: sorted(names.index(x) for x in set(re.findall(r'^from (\S+) import', srcs[n], flags=re.M)) if x in names) for i, n in enumerate(names)}
-        fresh = {}
-        try:
-            for n in names:
-                fresh[n] = tsession.Session(srcs).transpile(n)
-        except Errors.Error as e:
-            ctx.violation('pool-rejected:' + type(e).__name__, 'a module of the pool is rejected in a fresh session (%s)' % type(e).__name__,
-                          dict(sources=srcs, history=[('transpile', names.index(n))], impl_result=str(e)[:300]))
+        fresh = {n: outcome(lambda: tsession.Session(srcs, templates=tpl).transpile(n)) for n in names}
+        rejected = [n for n in names if fresh[n].startswith('ERROR') and not n.endswith('.bad')]
+        if rejected:
+            ctx.violation('pool-rejected:' + fresh[rejected[0]][6:], 'a module of the pool is rejected in a fresh session (%s)' % fresh[rejected[0]],
+                          dict(sources=srcs, templates=tpl, history=[('transpile', names.index(rejected[0]))], impl_result=fresh[rejected[0]]))
             continue
-        sess = tsession.Session(srcs)
+        sess = tsession.Session(srcs, templates=tpl)
         hist, obs = [], []
         nontrivial = False
         follow = None
@@ -102,15 +129,15 @@ def run(ctx: Ctx) -> None:
                 if importers and rnd.random() < .6:
                     follow = rnd.choice(importers)     # next: transpile a module that imports the unloaded one
             else:
-                try:
-                    text = sess.transpile(names[m])
-                    obs.append('text')
-                    if text != fresh[names[m]]:
-                        ctx.violation('history-dependent-output', 'transpiling a module inside a session history gives a different text than a fresh session', dict(sources=srcs, history=hist + [('transpile', m)], oracle_result=fresh[names[m]][-300:], impl_result=text[-300:]))
-                except Errors.Error as e:
-                    obs.append('unresolved')
-                    ctx.violation('history-breaks-transpile:' + type(e).__name__, 'transpiling a module fails inside a session history although a fresh session succeeds (%s)' % type(e).__name__,
-                                  dict(sources=srcs, history=hist + [('transpile', m)], impl_result=str(e)[:300]))
+                text = outcome(lambda: sess.transpile(names[m]))
+                obs.append('unresolved' if text.startswith('ERROR') else 'text')
+                if text != fresh[names[m]]:
+                    if text.startswith('ERROR'):
+                        ctx.violation('history-breaks-transpile:' + text[6:], 'transpiling a module fails inside a session history although a fresh session succeeds (%s)' % text[6:],
+                                      dict(sources=srcs, templates=tpl, history=hist + [('transpile', m)], impl_result=text))
+                    else:
+                        ctx.violation('history-dependent-output', 'transpiling a module inside a session history gives a different text than a fresh session',
+                                      dict(sources=srcs, templates=tpl, history=hist + [('transpile', m)], oracle_result=fresh[names[m]][-300:], impl_result=text[-300:]))
                 hist.append(('transpile', m))
             loaded = sorted(names.index(mm.path) for mm in sess.modules.loaded() if mm.path in names)
             obs.append(loaded)
@@ -123,37 +150,35 @@ def run(ctx: Ctx) -> None:
         ops = coq_list('(%s %d)' % ({'load': 'Load', 'unload': 'Unload', 'transpile': 'Transpile'}[o], m) for o, m in hist)
         outs = coq_list({'unit': 'OUnit', 'text': '(OText 0)', 'unresolved': 'OUnresolved'}[o] for o in obs[0::2])
         lsets = coq_list(coq_list(map(str, l)) for l in obs[1::2])
-        cases.append(coq_pair('(%s)' % clo, ops, outs, lsets))
-        raw.append(dict(imports=imps, history=hist))
+        if hidx != 2:      # (the third fixed pool holds a module that is refused on purpose: not a history of the bookkeeping model)
+            cases.append(coq_pair('(%s)' % clo, ops, outs, lsets))
+            raw.append(dict(imports=imps, history=hist))
         all_srcs.append(srcs)
         # ---- directed histories on the fixed pools: every ordered pair - transpile x (twice), then y, then x again ----
-        if hidx < 2:
-            for x in range(len(names)):
-                for y in range(len(names)):
-                    if x == y:
-                        continue
-                    s5 = tsession.Session(srcs)
-                    h5 = []
-                    for m in (x, x, y, x):
-                        h5.append(('transpile', m))
-                        ctx.evaluations += 1
-                        ctx.count('directed:ordered-pair')
-                        try:
-                            text = s5.transpile(names[m])
-                        except Errors.Error as e:
-                            ctx.violation('history-breaks-transpile:' + type(e).__name__, 'transpiling a module fails inside a session history although a fresh session succeeds (%s)' % type(e).__name__,
-                                          dict(sources=srcs, history=list(h5), impl_result=str(e)[:300]))
-                            break
-                        if text != fresh[names[m]]:
-                            ctx.violation('history-dependent-output', 'transpiling a module inside a session history gives a different text than a fresh session',
-                                          dict(sources=srcs, history=list(h5), oracle_result=fresh[names[m]][-300:], impl_result=text[-300:]))
-                            break
+        if hidx < 3:
+            import itertools
+            orders = [(x, x, y, x) for x in range(len(names)) for y in range(len(names)) if x != y]
+            if hidx == 2:
+                orders += list(itertools.permutations(range(len(names))))
+            for order in orders:
+                s5 = tsession.Session(srcs, templates=tpl)
+                h5 = []
+                for m in order:
+                    h5.append(('transpile', m))
+                    ctx.evaluations += 1
+                    ctx.count('directed:ordered-pair')
+                    text = outcome(lambda: s5.transpile(names[m]))
+                    if text != fresh[names[m]]:
+                        sig = 'history-breaks-transpile:' + text[6:] if text.startswith('ERROR') else 'history-dependent-output'
+                        ctx.violation(sig, 'transpiling a module inside a session history gives another outcome than a fresh session',
+                                      dict(sources=srcs, templates=tpl, history=list(h5), oracle_result=fresh[names[m]][-300:], impl_result=text[-300:]))
+                        break
         # ---- directed histories on the fixed pools: a submission of a module fails after parsing (undeclared type), then the valid
         #      text is re-submitted under the same path (the interactive loop: set the source, unload, load) ----
         if hidx < 2:
             for m in range(len(names)):
                 live = dict(srcs)
-                s6 = tsession.Session(live)
+                s6 = tsession.Session(live, templates=tpl)
                 live[names[m]] = srcs[names[m]] + '\n\ndef zz_bad(a: MissingType) -> None: ...\n'
                 h6 = [('submit-failing', m)]
                 try:
@@ -183,7 +208,7 @@ def run(ctx: Ctx) -> None:
             for y in range(len(names)):
                 if x != y and names[y].startswith(names[x]) and x not in import_closure(imps, y) and y not in import_closure(imps, x) and hidx < ctx.n(6, 400):
                     for victim, kept in ((x, y), (y, x)):
-                        s3 = tsession.Session(srcs)
+                        s3 = tsession.Session(srcs, templates=tpl)
                         s3.load(names[kept])
                         s3.load(names[victim])
                         s3.unload(names[victim])
@@ -206,7 +231,7 @@ def run(ctx: Ctx) -> None:
                         if done >= 2 or a in imps[c]:
                             continue
                         done += 1
-                        s4 = tsession.Session(srcs)
+                        s4 = tsession.Session(srcs, templates=tpl)
                         s4.load(names[c])
                         s4.unload(names[a])
                         ctx.evaluations += 1
@@ -254,14 +279,15 @@ def run(ctx: Ctx) -> None:
                 os.chdir(old_cwd)
                 shutil.rmtree(pool_dir, ignore_errors=True)
         # ---- isolation: loading another module changes no symbol / node class of an untouched one ----
-        s2 = tsession.Session(srcs)
-        a = names[0]
+        s2 = tsession.Session(srcs, templates=tpl)
+        a = next(n for n in names if not n.endswith('.bad'))
         s2.load(a)
         db = s2.resolve(SymbolDB)
         before = {k: str(db[k]) for k in db.keys() if k.startswith(a + '#')}
         nodes_before = [(n.full_path, type(n).__name__) for n in [*s2.load(a).entrypoint.procedural()]]
-        for other in names[1:]:
-            s2.load(other)
+        for other in names:
+            if other != a:
+                s2.load(other)
         after = {k: str(db[k]) for k in db.keys() if k.startswith(a + '#')}
         nodes_after = [(n.full_path, type(n).__name__) for n in [*s2.load(a).entrypoint.procedural()]]
         ctx.evaluations += 1
@@ -295,7 +321,7 @@ def run(ctx: Ctx) -> None:
     for i in bad:
         srcs = all_srcs[i]
         names = list(srcs)
-        sess = tsession.Session(srcs)
+        sess = tsession.Session(srcs, templates=tpl)
         for op, m in raw[i]['history']:
             try:
                 getattr(sess, op)(names[m])
@@ -303,7 +329,7 @@ def run(ctx: Ctx) -> None:
                 pass
         for n in names:
             try:
-                ok = sess.transpile(n) == tsession.Session(srcs).transpile(n)
+                ok = sess.transpile(n) == tsession.Session(srcs, templates=tpl).transpile(n)
                 why = 'differs'
             except Errors.Error as e:
                 ok, why = False, type(e).__name__
@@ -319,7 +345,8 @@ def replay(ctx: Ctx, data: dict) -> int:
     srcs = data['sources']
     names = list(srcs)
     live = dict(srcs)
-    sess = tsession.Session(live)
+    tpl = data.get('templates')
+    sess = tsession.Session(live, templates=tpl)
     bad = False
     for op, m in data['history']:
         try:
@@ -336,8 +363,9 @@ def replay(ctx: Ctx, data: dict) -> int:
             elif op == 'unload':
                 sess.unload(names[m])
             else:
-                t = sess.transpile(names[m])
-                if t != tsession.Session(srcs).transpile(names[m]):
+                t = outcome(lambda: sess.transpile(names[m]))
+                if t != outcome(lambda: tsession.Session(srcs, templates=tpl).transpile(names[m])):
+                    print(op, names[m], '-> differs from the fresh outcome')
                     bad = True
         except Errors.Error as e:
             print(op, names[m], '->', type(e).__name__)
